@@ -482,38 +482,47 @@ func poolAddr(x any, p *Pool) unsafe.Pointer {
 	return d
 }
 
-// Map is the model of sync.Map.
+// Map is the model of sync.Map: an association list in insertion order (the
+// library keeps a handful of entries per map). Every operation is one atomic
+// step; write operations release, every operation acquires, mirroring the
+// "a write synchronizes before a read that observes it" rule of sync.Map.
 type Map struct {
-	m    map[any]any
-	keys []any // insertion order, for deterministic Range
-	gen  *exec
+	keys []any
+	vals []any
 }
 
 //go:norace
-func (m *Map) enter(write bool) *exec {
+func (m *Map) enter(write bool) {
 	e := cur
 	if e != nil && !e.aborting {
 		point(OpMap, unsafe.Pointer(m))
 		raceAcquire(unsafe.Pointer(m))
 		if write {
-			raceRelease(unsafe.Pointer(m))
+			raceReleaseMerge(unsafe.Pointer(m))
 		}
 		e.hbOp(unsafe.Pointer(m), OpMap)
 	}
-	if m.m == nil {
-		m.m = map[any]any{}
-	}
-	return e
 }
 
 //go:norace
-func (m *Map) delKey(k any) {
-	for i, x := range m.keys {
-		if x == k {
-			m.keys = append(m.keys[:i:i], m.keys[i+1:]...)
-			return
+func (m *Map) find(k any) int {
+	for i := 0; i < len(m.keys); i++ {
+		if m.keys[i] == k {
+			return i
 		}
 	}
+	return -1
+}
+
+//go:norace
+func (m *Map) del(i int) {
+	n := len(m.keys)
+	for j := i; j+1 < n; j++ {
+		m.keys[j] = m.keys[j+1]
+		m.vals[j] = m.vals[j+1]
+	}
+	m.keys[n-1], m.vals[n-1] = nil, nil
+	m.keys, m.vals = m.keys[:n-1], m.vals[:n-1]
 }
 
 // Load implements sync.Map.Load.
@@ -521,8 +530,10 @@ func (m *Map) delKey(k any) {
 //go:norace
 func (m *Map) Load(k any) (any, bool) {
 	m.enter(false)
-	v, ok := m.m[k]
-	return v, ok
+	if i := m.find(k); i >= 0 {
+		return m.vals[i], true
+	}
+	return nil, false
 }
 
 // Store implements sync.Map.Store.
@@ -530,10 +541,12 @@ func (m *Map) Load(k any) (any, bool) {
 //go:norace
 func (m *Map) Store(k, v any) {
 	m.enter(true)
-	if _, ok := m.m[k]; !ok {
-		m.keys = append(m.keys, k)
+	if i := m.find(k); i >= 0 {
+		m.vals[i] = v
+		return
 	}
-	m.m[k] = v
+	m.keys = append(m.keys, k)
+	m.vals = append(m.vals, v)
 }
 
 // LoadOrStore implements sync.Map.LoadOrStore.
@@ -541,11 +554,11 @@ func (m *Map) Store(k, v any) {
 //go:norace
 func (m *Map) LoadOrStore(k, v any) (any, bool) {
 	m.enter(true)
-	if old, ok := m.m[k]; ok {
-		return old, true
+	if i := m.find(k); i >= 0 {
+		return m.vals[i], true
 	}
 	m.keys = append(m.keys, k)
-	m.m[k] = v
+	m.vals = append(m.vals, v)
 	return v, false
 }
 
@@ -554,12 +567,12 @@ func (m *Map) LoadOrStore(k, v any) (any, bool) {
 //go:norace
 func (m *Map) LoadAndDelete(k any) (any, bool) {
 	m.enter(true)
-	v, ok := m.m[k]
-	if ok {
-		delete(m.m, k)
-		m.delKey(k)
+	if i := m.find(k); i >= 0 {
+		v := m.vals[i]
+		m.del(i)
+		return v, true
 	}
-	return v, ok
+	return nil, false
 }
 
 // Delete implements sync.Map.Delete.
@@ -572,12 +585,14 @@ func (m *Map) Delete(k any) { m.LoadAndDelete(k) }
 //go:norace
 func (m *Map) Swap(k, v any) (any, bool) {
 	m.enter(true)
-	old, ok := m.m[k]
-	if !ok {
-		m.keys = append(m.keys, k)
+	if i := m.find(k); i >= 0 {
+		old := m.vals[i]
+		m.vals[i] = v
+		return old, true
 	}
-	m.m[k] = v
-	return old, ok
+	m.keys = append(m.keys, k)
+	m.vals = append(m.vals, v)
+	return nil, false
 }
 
 // CompareAndSwap implements sync.Map.CompareAndSwap.
@@ -585,8 +600,8 @@ func (m *Map) Swap(k, v any) (any, bool) {
 //go:norace
 func (m *Map) CompareAndSwap(k, old, new any) bool {
 	m.enter(true)
-	if v, ok := m.m[k]; ok && v == old {
-		m.m[k] = new
+	if i := m.find(k); i >= 0 && m.vals[i] == old {
+		m.vals[i] = new
 		return true
 	}
 	return false
@@ -597,9 +612,8 @@ func (m *Map) CompareAndSwap(k, old, new any) bool {
 //go:norace
 func (m *Map) CompareAndDelete(k, old any) bool {
 	m.enter(true)
-	if v, ok := m.m[k]; ok && v == old {
-		delete(m.m, k)
-		m.delKey(k)
+	if i := m.find(k); i >= 0 && m.vals[i] == old {
+		m.del(i)
 		return true
 	}
 	return false
@@ -610,23 +624,26 @@ func (m *Map) CompareAndDelete(k, old any) bool {
 //go:norace
 func (m *Map) Clear() {
 	m.enter(true)
-	m.m = map[any]any{}
-	m.keys = nil
+	m.keys, m.vals = nil, nil
 }
 
-// Range implements sync.Map.Range (snapshot of keys in insertion order; each
-// callback sees the current value, as the real Range may).
+// Range implements sync.Map.Range: it visits a snapshot of the keys in
+// insertion order; each callback sees the current value, as the real Range may.
 //
 //go:norace
 func (m *Map) Range(f func(k, v any) bool) {
 	m.enter(false)
-	keys := append([]any(nil), m.keys...)
-	for _, k := range keys {
-		v, ok := m.m[k]
-		if !ok {
+	n := len(m.keys)
+	snap := make([]any, n)
+	for i := 0; i < n; i++ {
+		snap[i] = m.keys[i]
+	}
+	for i := 0; i < n; i++ {
+		j := m.find(snap[i])
+		if j < 0 {
 			continue
 		}
-		if !f(k, v) {
+		if !f(snap[i], m.vals[j]) {
 			return
 		}
 	}
@@ -635,7 +652,7 @@ func (m *Map) Range(f func(k, v any) bool) {
 // Len reports the number of entries (used by retained-size checks).
 //
 //go:norace
-func (m *Map) Len() int { return len(m.m) }
+func (m *Map) Len() int { return len(m.keys) }
 
 // Cond is the model of sync.Cond.
 type Cond struct {
